@@ -146,12 +146,114 @@ def run_build(mos, root, cid, files):
     return {"exit": rc, "diags": diags, "before": before, "after": after, "crashed": hung or rc not in (0, 1), "stdout": out[-1500:]}
 
 
+def grid_project(d, c, fault):
+    """one project of the configuration grid of Build.tla: mos.toml, entry file (with banks), imported file, fault"""
+    cfg = c["cfg"]
+    entry = os.path.join(d, cfg["entry"])
+    os.makedirs(os.path.dirname(entry), exist_ok=True)
+    t = ['[build]', 'entry = "%s"' % cfg["entry"], 'target-directory = "%s"' % cfg["tdir"], 'listing = %s' % ("true" if cfg["listing"] else "false"),
+         'symbols = [%s]' % ('"vice"' if cfg["symbols"] else "")]
+    if cfg["fmt"] != "none":
+        t.append('output-format = "%s"' % cfg["fmt"])
+    if cfg["ofn"]:
+        t.append('output-filename = "%s"' % cfg["ofn"])
+    if fault == "config":
+        t.append('no-such-option = 1')
+    open(os.path.join(d, "mos.toml"), "w").write("\n".join(t) + "\n")
+    src = []
+    for b in range(1, cfg["banks"] + 1):
+        src.append('.define bank { name = "b%d" create-segment = true }' % b)
+    body = ["start: lda #1", "  sta start", "  rts"]
+    if cfg["imports"]:
+        body.append('.import * from "inc.asm"')
+    if fault == "codegen":
+        body.append("  jmp nowhere")
+    if fault == "parse":
+        body.append("  lda #")
+    if cfg["banks"] == 0:
+        src += body
+    else:
+        src += ['.segment "b1" {'] + body + ["}"]
+        for b in range(2, cfg["banks"] + 1):
+            src += ['.segment "b%d" {' % b, "  .byte %d" % b, "}"]
+    open(entry, "w").write("\n".join(src) + "\n")
+    if cfg["imports"]:
+        open(os.path.join(os.path.dirname(entry), "inc.asm"), "w").write("ilab: .byte 9\n" + ("  .byte ,\n" if fault == "importparse" else ""))
+
+
+def run_grid_case(mos, root, i, c, precreate):
+    d = os.path.join(root, "g%d" % i)
+    shutil.rmtree(d, ignore_errors=True)
+    os.makedirs(d)
+    grid_project(d, c, c["fault"])
+    tdir = os.path.join(d, c["cfg"]["tdir"])
+    if precreate:
+        os.makedirs(tdir)
+        for fn in c["all"]:
+            open(os.path.join(tdir, fn), "w").write("sentinel " + fn)
+    before = snapshot(tdir) if precreate else []
+    try:
+        p = subprocess.run([mos, "--no-color", "-e", "Short", "build"], cwd=d, capture_output=True, text=True, timeout=60)
+        rc, out, hung = p.returncode, p.stdout + p.stderr, False
+    except subprocess.TimeoutExpired:
+        rc, out, hung = -9, "", True
+    exists = os.path.isdir(tdir)
+    after = snapshot(tdir) if exists else []
+    shutil.rmtree(d, ignore_errors=True)
+    return {"id": i, "cfg": c["cfg"], "fault": c["fault"], "exit": rc, "crashed": hung or rc not in (0, 1), "dirBefore": precreate, "dirAfter": exists,
+            "before": before, "after": after, "stdout": out[-800:]}
+
+
+def config_grid(rep, mos, grid, tier):
+    """Build.tla's configuration grid (exported by TLC) against the real command; judged by BuildTrace.tla"""
+    cases = V.read_ndjson(grid)
+    if len(cases) < 1000:
+        raise V.ToolError("TLC exported only %d configuration cases" % len(cases))
+    rnd = V.rng("C04-grid")
+    cases.sort(key=lambda c: V.json.dumps(c, sort_keys=True))
+    if tier == "quick":
+        faulty = [c for c in cases if c["fault"] in ("parse", "codegen", "importparse")]
+        other = [c for c in cases if c["fault"] not in ("parse", "codegen", "importparse")]
+        cases = rnd.sample(faulty, 260) + rnd.sample(other, 140)
+    pre = [rnd.random() < 0.7 for _ in cases]
+    root = V.fresh_dir("C04-grid")
+    with concurrent.futures.ThreadPoolExecutor(max_workers=8) as ex:
+        obs = list(ex.map(lambda k: run_grid_case(mos, root, k + 1, cases[k], pre[k]), range(len(cases))))
+    shutil.rmtree(root, ignore_errors=True)
+    recs = [{k: v for k, v in o.items() if k != "stdout"} for o in obs]
+    verdicts, st = V.judge(os.path.join(V.SPEC, "Build", "BuildTrace.tla"), recs, cfg=os.path.join(V.SPEC, "Build", "BuildTrace.cfg"), tag="C04-gridjudge", batch=4000)
+    rep.add_stats(st)
+    rep.cov["config_grid_builds"] = len(recs)
+    rep.cov["config_grid_failing_known_class"] = sum(1 for o in obs if o["fault"] in ("parse", "codegen", "importparse"))
+    rep.cov["config_grid_successful"] = sum(1 for o in obs if o["exit"] == 0)
+    if rep.cov["config_grid_successful"] < len(recs) // 10:
+        raise V.ToolError("too few successful builds in the configuration grid: the projects are broken")
+    omap = {o["id"]: o for o in obs}
+    for v in verdicts:
+        rep.verdict(v, {"configuration": omap[v["id"]]["cfg"], "fault": omap[v["id"]]["fault"], "observed": omap[v["id"]], "judge": "spec/Build/BuildTrace.tla", "why": v.get("why")})
+
+
 def main(tier):
     rep = V.Report("C04", tier)
     mos = V.build_mos()
     # design level: the build command never writes before all checks passed, whatever step fails
-    r = V.tlc_must_pass(os.path.join(V.SPEC, "Build", "Build.tla"), cfg=os.path.join(V.SPEC, "Build", "Build.cfg"), workers=2, coverage=True, deadlock=False, timeout=300, tag="C04-build")
+    wdb = V.workdir("C04-build")
+    grid = os.path.join(wdb, "grid.ndjson")
+    if os.path.exists(grid):
+        os.remove(grid)
+    r = V.tlc_must_pass(os.path.join(V.SPEC, "Build", "MC_Build.tla"), cfg=os.path.join(V.SPEC, "Build", "Build.cfg"), env={"OUT": grid}, workers=2, coverage=True, deadlock=False, timeout=300, tag="C04-build")
+    if r.coverage.get("IoFail", (1, 1))[0] == 0 and "IoFail" in r.coverage:
+        raise V.ToolError("vacuous Build run: IoFail never taken")
+    # the same safety property for every set of outputs: inductive invariant discharged by the TLA+ proof system (informational)
+    try:
+        import subprocess, re
+        pp = subprocess.run(["timeout", "300", "tlapm", "--threads", "4", "BuildProof.tla"], cwd=os.path.join(V.SPEC, "Build"), capture_output=True, text=True)
+        mm = re.search(r"All (\d+) obligations proved", pp.stdout + pp.stderr)
+        rep.cov["tlaps_obligations_proved"] = int(mm.group(1)) if mm else 0
+    except Exception:
+        rep.cov["tlaps_obligations_proved"] = 0
     rep.add_tlc(r)
+    config_grid(rep, mos, grid, tier)
     rnd = V.rng("C04")
     nbase = 12 if tier == "quick" else 80
     recs, bases = [], {}
